@@ -32,7 +32,7 @@ ALPHABET = set("0123456789:TZW/P+-., YMDHS")
 SEEDS = ["2016-10-06T12:34:56.123456+05:30", "20161006T123456", "2016-10-06", "2012-W05-5", "2012W055", "2012-007", "2012007", "12:34:56.5", "T1234",
          "2016-10-06 12:34:56", "P1Y2M3DT4H5M6.5S", "P3W", "PT1.5H", "2007-03-01T13:00:00Z/2008-05-11T15:30:00Z", "2008-05-11T15:30:00Z/P1Y2M10DT2H30M",
          "P1Y2M10DT2H30M/2008-05-11T15:30:00Z", "2016-10", "20161001T14", "2016-10-06T12:34:56Z", "2016-10-06T12:34:56,5-0330", "2016-280T12", "2016-10-06/2016-10-09",
-         "T12:34:56+02:00", "1583-01-01", "9999-12-31T23:59:59.999999"]
+         "T12:34:56+02:00", "1583-01-01", "9999-12-31T23:59:59.999999", "2016-10-06 12:34:56.789", "12:34", "2016-10-06 12:34"]
 SRC = os.path.realpath(os.path.join(env.REPO, "src", "pendulum"))
 DUR_RE = re.compile(r"^P[0-9YMWDTHS.,]+\Z")
 
@@ -130,8 +130,10 @@ edit = st.one_of(
     st.tuples(st.just("del"), st.integers(0, 80), st.just("")),
     st.tuples(st.just("trunc"), st.integers(0, 80), st.just("")),
     st.tuples(st.just("cat"), st.integers(0, len(SEEDS) - 1), st.just("")),
-    st.tuples(st.just("ins"), st.integers(0, 80), st.sampled_from(["٣", "２", "\x00", "é", "t", "z", "\n", "−", "a", "J"])),
+    st.tuples(st.just("ins"), st.integers(0, 80), st.sampled_from(["٣", "２", "\x00", "é", "t", "z", "\n", "−", "a", "J", "|", ";", "_", "#", "*", "(", "[", "=", "~", "'", "\\", "\t", "\r"])),
     st.tuples(st.just("digits"), st.integers(0, 80), st.integers(10, 25).map(lambda n: "9" * n)),
+    # grammar-aware: replace the k-th separator of the string (where parsers branch) by another separator or foreign punctuation
+    st.tuples(st.just("sep"), st.integers(0, 12), st.sampled_from(list(".,:-+TZ/ W") + ["|", ";", "_", "#", "*", "=", "~", "'", "\\", "t", "z", "−", "\t"])),
 )
 options = st.fixed_dictionaries({}, optional={"exact": st.booleans(), "strict": st.booleans(), "tz": st.sampled_from(["Europe/Paris", "UTC", "America/New_York"]),
                                               "day_first": st.booleans(), "year_first": st.booleans()})
@@ -144,6 +146,12 @@ def apply_edits(s, edits):
             continue
         if kind == "trunc":
             s = s[: pos % (len(s) + 1)]
+            continue
+        if kind == "sep":
+            idx = [i for i, c in enumerate(s) if not c.isdigit()]
+            if idx:
+                i = idx[pos % len(idx)]
+                s = s[:i] + ch + s[i + 1:]
             continue
         if not s and kind in ("sub", "del"):
             continue
@@ -170,6 +178,49 @@ class Mutated(Sub):
         s = apply_edits(SEEDS[case["seed"]], [tuple(e) for e in case["edits"]])
         v = oracle(s, case["opts"])
         return (s not in SEEDS and set(s) <= ALPHABET), v
+
+
+FOREIGN = ["|", ";", "_", "#", "*", "(", ")", "[", "]", "{", "}", "=", "~", "'", '"', "\\", "\t", "\r", "\n", "\x00", "t", "z", "w", "p", "a", "J", "é", "٣", "２", "−", "\u2009"]
+
+
+class SingleEdits(Sub):
+    """every single-character edit of every seed form: the first ring of C17's quantifier, enumerated"""
+    name = "single_edits_exhaustive"
+    kind = "enum"
+    n = {"quick": 0, "thorough": 0}
+    shards = {"quick": 2, "thorough": 4}
+    distinct_by_construction = True
+    rule = ("every seed form x every position x {substitute, insert} x every character of the ISO alphabet and of a foreign set (ASCII punctuation, lower-case "
+            "designators, control characters, non-ASCII digits), plus every single deletion and every truncation; options {} (thorough: also exact, non-strict, tz); "
+            "non-trivial: the edited string stays inside the ISO alphabet")
+
+    def exhaustive(self, tier):
+        return True
+
+    def cases(self, ctx, shard, nshards):
+        chars = sorted(ALPHABET) + FOREIGN
+        k = 0
+        for si, seed_s in enumerate(SEEDS):
+            for pos in range(len(seed_s) + 1):
+                for kind in ("sub", "ins", "del", "trunc"):
+                    if kind in ("sub", "del") and pos >= len(seed_s):
+                        continue
+                    for ch in (chars if kind in ("sub", "ins") else [""]):
+                        if kind == "sub" and ch == seed_s[pos]:
+                            continue
+                        k += 1
+                        if k % nshards == shard:
+                            yield {"seed": si, "kind": kind, "pos": pos, "ch": ch}
+
+    def check(self, case, ctx):
+        s0 = SEEDS[case["seed"]]
+        pos, ch, kind = case["pos"], case["ch"], case["kind"]
+        s = {"sub": s0[:pos] + ch + s0[pos + 1:], "ins": s0[:pos] + ch + s0[pos:], "del": s0[:pos] + s0[pos + 1:], "trunc": s0[:pos]}[kind]
+        v = oracle(s, {})
+        if ctx.thorough:
+            for opts in ({"exact": True}, {"strict": False}, {"tz": "Europe/Paris"}):
+                oracle(s, opts)
+        return set(s) <= ALPHABET, v
 
 
 class RandomStrings(Sub):
@@ -243,8 +294,9 @@ class Atheris(Sub):
                     f.write(b"\x00" + s.encode())
         out = os.path.join(work, "result.json")
         seed = (ctx.seed * 7919 + shard * 104729 + (1 if ctx.backend == "rust" else 0)) % (2**31 - 1) + 1
+        budget = 240 if ctx.tier == "quick" else 3600      # safety net only: a normal campaign needs ~10 s / ~5 min
         cmd = [sys.executable, "-m", "vf.fuzz_parse", out, ctx.backend, f"-runs={n}", f"-seed={seed}", "-max_len=64", "-len_control=0", "-print_final_stats=0",
-               "-verbosity=0", corpus]
+               "-verbosity=0", f"-max_total_time={budget}", corpus]
         e = dict(os.environ)
         r = subprocess.run(cmd, cwd=VERIF, env=e, capture_output=True, text=True, timeout=3600 * 3)
         try:
@@ -255,7 +307,9 @@ class Atheris(Sub):
         finally:
             import shutil
             shutil.rmtree(work, ignore_errors=True)
-        if st_["execs"] < min(n, 1000):
+        if st_["execs"] < n and not st_["buckets"]:
+            acc.labels["campaign-truncated-by-time-budget"] += 1
+        if st_["execs"] < min(n, 1000) and not st_["buckets"]:
             raise env.HarnessError(f"atheris campaign stopped after {st_['execs']} executions:\n" + (r.stderr or r.stdout)[-2000:])
         acc.evals += st_["execs"]
         acc.nt_count += st_["nontrivial"]
@@ -278,4 +332,4 @@ class Atheris(Sub):
         return True, "replayed"
 
 
-SUBS = [Mutated(), RandomStrings(), StrictRejects(), Atheris()]
+SUBS = [Mutated(), SingleEdits(), RandomStrings(), StrictRejects(), Atheris()]
